@@ -108,9 +108,15 @@ func repeatedThroughDecoder(t *rapid.T, vs lib.ValSet) (lib.ValSet, bool) {
 		vals = append(vals, v.Copy())
 		keys = append(keys, vs.Keys[i])
 	}
+	alias := rapid.Bool().Draw(t, "rep.alias")
 	for ; k > 0; k-- {
 		at := rapid.IntRange(0, len(vals)).Draw(t, "rep.at")
-		vals = append(vals[:at], append([]*types.Validator{vs.Set.Validators[j].Copy()}, vals[at:]...)...)
+		cp := vs.Set.Validators[j].Copy()
+		if alias {
+			// the same public key under a made-up address: nothing in a decoded validator ties the two together
+			cp.Address = rapid.SliceOfN(rapid.Byte(), 20, 20).Draw(t, "rep.addr")
+		}
+		vals = append(vals[:at], append([]*types.Validator{cp}, vals[at:]...)...)
 		keys = append(keys[:at], append([]int{vs.Keys[j]}, keys[at:]...)...)
 	}
 	raw := &types.ValidatorSet{Validators: vals, Proposer: vals[0].Copy()}
@@ -470,11 +476,12 @@ func refTally(vals *types.ValidatorSet, chain string, c *types.Commit, byIndex b
 	r := refResult{tally: new(big.Int), total: new(big.Int), allValid: true}
 	members := map[string]bool{}
 	for _, v := range vals.Validators {
-		if members[string(v.Address)] {
+		// a member is whoever holds the key the signatures are verified with
+		if members[string(v.PubKey.Bytes())] {
 			r.allValid = false // a malformed set: soundness only, acceptance is never demanded
 			continue           // a member listed again is still one member
 		}
-		members[string(v.Address)] = true
+		members[string(v.PubKey.Bytes())] = true
 		r.total.Add(r.total, big.NewInt(v.VotingPower))
 	}
 	seen := map[string]bool{}
@@ -505,11 +512,11 @@ func refTally(vals *types.ValidatorSet, chain string, c *types.Commit, byIndex b
 			r.allValid = false
 		}
 		if ok && cs.BlockIDFlag == types.BlockIDFlagCommit {
-			if seen[string(val.Address)] {
+			if seen[string(val.PubKey.Bytes())] {
 				r.allValid = false // repeated signer
 				continue
 			}
-			seen[string(val.Address)] = true
+			seen[string(val.PubKey.Bytes())] = true
 			r.tally.Add(r.tally, big.NewInt(val.VotingPower))
 			r.counted++
 		} else {
